@@ -41,7 +41,7 @@ ENGINES = [
 
 NOTES = (
     "Static analysis only: every check parses / type-checks /repo's working tree on each run and reports constructs (file, function, template, call site, MIR site). "
-    "Witnesses under witnesses/ demonstrate findings against the real macro; they decide nothing. seeded/ holds 120 independently written regressions (three rounds) with bin/seedsweep to replay them; neutral/ holds behaviour-preserving edits that must stay silent (bin/neutralsweep)."
+    "Witnesses under witnesses/ demonstrate findings against the real macro; they decide nothing. seeded/ holds 197 independently written regressions (five rounds); neutral/ holds 160 independently written behaviour-preserving refactorings (four rounds) and 111 mechanical ones that every check must stay silent on (bin/neutralsweep) with bin/seedsweep to replay them; neutral/ holds behaviour-preserving edits that must stay silent (bin/neutralsweep)."
 )
 
 NOT_APPLICABLE = {}
@@ -50,42 +50,42 @@ T_TPL = "static analysis: lint over the token trees of the code-generating templ
 T_DEC = "static analysis: structural rules over the decision code (match-arm tables, condition coverage, sibling agreement, must-precede / must-pass-through) on the syn AST"
 
 CLAIMS = {
-    "C01": {"text": "Necessary conditions of 'compiles warning-free for every supported input', for all inputs: impl headers and every TypeGenerics splice apply the generics to the deriving type's identifier only (types from rustc, provenance by def-use), impls naming user variants are under allow(deprecated), no Self::<Assoc> in enum-capable expanders, user identifiers un-rawed, user expressions parenthesised. Plus: the generic-parameter detectors (AsRef/AsMut visitor, Error's type-parameter search) examine every position of a parameter in a type (closed set from the syn sources); the Generics-deriving helpers preserve the user's where-clause; every refusal of an input is in the audited REJECT-LEDGER; body/bounds share decisions.",
+    "C01": {"text": "Necessary conditions of 'compiles warning-free for every supported input', for all inputs: impl headers and every TypeGenerics splice apply the generics to the deriving type's identifier only (types from rustc, provenance by def-use), impls naming user variants are under allow(deprecated), no Self::<Assoc> in enum-capable expanders, user identifiers un-rawed, user expressions parenthesised. Plus: the generic-parameter detectors (AsRef/AsMut visitor, Error's type-parameter search) examine every position of a parameter in a type (closed set from the syn sources); the Generics-deriving helpers preserve the user's where-clause; every refusal of an input is in the audited REJECT-LEDGER; body/bounds share decisions. Round 4/5 additions: BOUNDS-APPEND (the collected bounds reach the where-clause unconditionally), index spaces and the repr parser also under this property.",
             "note": "Does not prove that every well-typed input type-checks after expansion. Lint behaviour inside expansions as observed on the installed toolchains.", "technique": T_TPL},
-    "C02": {"text": "Decides the three structural facts the byte-for-byte claim reduces to: verbatim, ordered hand-over of the attribute to write!/format_args!, binder/member alignment, Pointer re-binding and the rename_all table; the produced bytes follow from format_args! semantics and are not executed. Plus: the attribute never re-emits a trailing separator, per-variant state is overwritten on every iteration (ITER-FRESH), rename_all merge/inheritance evaluated on all None/Some cases (OPT-ALG), literal parsing equals std's.",
+    "C02": {"text": "Decides the three structural facts the byte-for-byte claim reduces to: verbatim, ordered hand-over of the attribute to write!/format_args!, binder/member alignment, Pointer re-binding and the rename_all table; the produced bytes follow from format_args! semantics and are not executed. Plus: the attribute never re-emits a trailing separator, per-variant state is overwritten on every iteration (ITER-FRESH), rename_all merge/inheritance evaluated on all None/Some cases (OPT-ALG), literal parsing equals std's. Also: TRAIT-TABLE (placeholder per trait against std's table), LIT-VERBATIM (no template interpolates the literal's unescaped value).",
             "note": "Trusts format_args!. Values at run time not decided.", "technique": T_TPL + "; " + T_DEC},
     "C03": {"text": "Grammar-model check: a PEG extracted from the parser's source on every run equals std::fmt's documented grammar on all table rules and on a bounded exhaustive enumeration of literals (46k quick / ~10^6 thorough), counter discipline incl. `.*`; positional index must denote an argument for transparency.",
             "note": "Strength bounded by extraction fidelity (guarded by the combinator-shape rule, fail-closed) and by the enumeration bound; reference grammar read from the toolchain docs.", "technique": "static analysis: grammar extraction from source (abstract interpretation of parser combinators) + bounded equivalence of two grammar models"},
-    "C04": {"text": "Bounds are sufficient/not excessive as far as visible in the generator: each emitted bound is guarded on the same type, the generic-detection traversal covers every syn variant and type-bearing field (compared with the syn sources), lookups agree with their sibling, body and bounds share decisions, literal parsing equals std's. Plus: a generics test gates only bounds about the tested binding (GUARD-SCOPE), detectors leave early only with a positive answer, every Expansion is asked for bounds unconditionally.",
+    "C04": {"text": "Bounds are sufficient/not excessive as far as visible in the generator: each emitted bound is guarded on the same type, the generic-detection traversal covers every syn variant and type-bearing field (compared with the syn sources), lookups agree with their sibling, body and bounds share decisions, literal parsing equals std's. Plus: a generics test gates only bounds about the tested binding (GUARD-SCOPE), detectors leave early only with a positive answer, every Expansion is asked for bounds unconditionally. Also: TRAIT-TABLE, BOUNDS-APPEND, the merge of repeated bound(..) attributes appends.",
             "note": "Completeness of bounded_types as an algorithm is not proved.", "technique": T_DEC + "; traversal exhaustiveness against the dependency's AST definition"},
-    "C05": {"text": "Pass-through decision is total and exact: all FormatSpec fields veto transparency, one placeholder only, index 0 only, named outer binding total, every attribute-body site asks transparent_call_on_fields first and falls back unconditionally, delegation shape. Plus: the 'exactly one placeholder' question gets std's answer on 17k generated literals (TRANSP-EQUIV over the extracted grammar).",
+    "C05": {"text": "Pass-through decision is total and exact: all FormatSpec fields veto transparency, one placeholder only, index 0 only, named outer binding total, every attribute-body site asks transparent_call_on_fields first and falls back unconditionally, delegation shape. Plus: the 'exactly one placeholder' question gets std's answer on 17k generated literals (TRANSP-EQUIV over the extracted grammar). Also: SHARED-ATTR (variants receive the enum-level format unfiltered; the per-variant decision alone chooses transparency).",
             "note": "Output text under each outer spec not decided. Two scanner findings (C16) are known and repeated here.", "technique": T_DEC},
-    "C06": {"text": "Builder-shape rules for generate_body, RAW-ID over every rustc-resolved Ident->text conversion, and method-by-method effect-skeleton equality between src/fmt.rs::DebugTuple and the toolchain's core::fmt::DebugTuple.",
+    "C06": {"text": "Builder-shape rules for generate_body, RAW-ID over every rustc-resolved Ident->text conversion, and method-by-method effect-skeleton equality between src/fmt.rs::DebugTuple and the toolchain's core::fmt::DebugTuple. Also: struct state types equal core's, overridden Write methods executed against core's (bisimulation of the pad adapters), TRAVERSE, impl header and bounds rules.",
             "note": "One known finding (pretty branch drops formatter options; not fixable on MSRV). Output equality for all values not decided beyond skeleton equality.", "technique": "static analysis: sibling cross-check of two implementations (effect skeletons) + template shape rules + MIR-located conversions"},
-    "C07": {"text": "Compile-time clauses of the shared-attribute logic: rejection precedes generation and covers modifiers and non-Display, Debug rejects enum-level formats, name lookups agree, body/bounds share the shared_attr_info decisions, wrap template, rename before split.",
+    "C07": {"text": "Compile-time clauses of the shared-attribute logic: rejection precedes generation and covers modifiers and non-Display, Debug rejects enum-level formats, name lookups agree, body/bounds share the shared_attr_info decisions, wrap template, rename before split. Also: Engine G rules (whether a literal is a bare {_variant} is a parsing question), TRAIT-TABLE, REJECT-LEDGER, SHARED-ATTR.",
             "note": "The full three-way run-time decision and printed texts are not decided.", "technique": T_DEC},
-    "C08": {"text": "Field order and impl set: (i, field) pairing, exactly one conversion per field, From decision table with a complete first pass, Into triples/kinds, Constructor single field list, attribute-merge symmetry over all kinds x fields. Plus: arity of listed tuple types (ARITY), Into's implicit impl set, accumulators never overwritten, enumerate indices count declaration positions, no order-changing adaptor, no exchanged arguments.",
+    "C08": {"text": "Field order and impl set: (i, field) pairing, exactly one conversion per field, From decision table with a complete first pass, Into triples/kinds, Constructor single field list, attribute-merge symmetry over all kinds x fields. Plus: arity of listed tuple types (ARITY), Into's implicit impl set, accumulators never overwritten, enumerate indices count declaration positions, no order-changing adaptor, no exchanged arguments. Also: TPL-UFCS (no call on a user type without a cast), unconditional sub-attribute merges, REF-KINDS, impl headers.",
             "note": "Run-time identity of conversions not decided.", "technique": T_DEC + "; " + T_TPL},
     "C09": {"text": "Index-space typing (all fields vs enabled fields) of every subscript and matcher argument with spaces derived from the source, definitions of the enabled views, and the documented source-selection table. Plus: every per-field vector of MultiFieldData derives 1:1 from an enabled_* view, legacy flags resolve own-else-default on all cases (OPT-ALG), accumulating loops are left only through failure values.",
             "note": "Address identity at run time follows from the selected member expression; not executed.", "technique": "static analysis: typed-index (index-space) dataflow over the syn AST joined with rustc types + decision-table rules"},
-    "C10": {"text": "Operand order and field-wise action for all inputs: template role rules for struct/enum/scalar/unary forms, error arms, one flag for Result wrapping, method names constant-evaluated against core's trait declarations, Sum/Product fold shape. Plus: the scalar/forward decision reads the resolved flag (RAW-FLAG), no exchanged arguments (ARG-SWAP), Generics helpers keep the where-clause.",
+    "C10": {"text": "Operand order and field-wise action for all inputs: template role rules for struct/enum/scalar/unary forms, error arms, one flag for Result wrapping, method names constant-evaluated against core's trait declarations, Sum/Product fold shape. Plus: the scalar/forward decision reads the resolved flag (RAW-FLAG), no exchanged arguments (ARG-SWAP), Generics helpers keep the where-clause. Also: TPL-UFCS (operator methods called fully qualified - found and fixed `self.0.add(rhs.0)`), POS-SEARCH (no position by structural-equality search), ERR-MSG, polarity table of the legacy parser, generics helpers visit every parameter.",
             "note": "Operator results for values not decided.", "technique": T_TPL + "; constant evaluation of name derivations"},
-    "C11": {"text": "Accessors built per variant from one source, success arm returns its own binders, failure re-match over all variants carrying the original value, emission gating, TryInto grouping/patterns, view definitions, un-raw method names. Plus: TryInto groups every reference kind of the variant's own info unconditionally; legacy flags resolve own-else-default (OPT-ALG).",
+    "C11": {"text": "Accessors built per variant from one source, success arm returns its own binders, failure re-match over all variants carrying the original value, emission gating, TryInto grouping/patterns, view definitions, un-raw method names. Plus: TryInto groups every reference kind of the variant's own info unconditionally; legacy flags resolve own-else-default (OPT-ALG). Also: REF-KINDS (ref_types() evaluated on all eight flag combinations), ERR-MSG, generics helpers.",
             "note": "snake_case delegated to convert_case.", "technique": T_TPL + "; " + T_DEC},
-    "C12": {"text": "Discriminant counter discipline, parenthesised explicit expressions (TPL-PREC over all expression splices), typed injectively-named constants, match only through them, repr table and merge, generic header. Plus: ReprInt is read over all attributes and consumes every other hint's body; the entry dispatches on the kind of item alone; cfg def-use and syn-capability implications.",
+    "C12": {"text": "Discriminant counter discipline, parenthesised explicit expressions (TPL-PREC over all expression splices), typed injectively-named constants, match only through them, repr table and merge, generic header. Plus: ReprInt is read over all attributes and consumes every other hint's body; the entry dispatches on the kind of item alone; cfg def-use and syn-capability implications. Also: the discriminant expression is the same for every enum; ERR-MSG; the repr parser follows helpers / consts.",
             "note": "Integer-domain sweep not done (language semantics of implicit discriminants assumed).", "technique": T_DEC + "; operator-adjacency rule for spliced expressions"},
-    "C13": {"text": "Same case mapping on both sides, guard structure for colliding groups, fall-through error, field-less only, newtype delegation and error type, un-raw names, generic header. Plus: dispatch on derive_type, identity format_ident! of identifiers (strips r#) flagged, cfg def-use and syn-capability implications.",
+    "C13": {"text": "Same case mapping on both sides, guard structure for colliding groups, fall-through error, field-less only, newtype delegation and error type, un-raw names, generic header. Plus: dispatch on derive_type, identity format_ident! of identifiers (strips r#) flagged, cfg def-use and syn-capability implications. Also: ERR-MSG (FromStrError renders the same under any caller flags).",
             "note": "Verdict for particular strings not decided.", "technique": T_DEC},
-    "C14": {"text": "Single enabled field selection with original positional names, direct/forwarded shapes with projected associated types, RefType tables, AsRef kind decision and autoref-specialisation levels between src/as.rs and the call site. Plus: the &mut ExtractRef impls equal the & ones modulo mut (bounds included), generics search positions, enumerate indices, resolved forward flag.",
+    "C14": {"text": "Single enabled field selection with original positional names, direct/forwarded shapes with projected associated types, RefType tables, AsRef kind decision and autoref-specialisation levels between src/as.rs and the call site. Plus: the &mut ExtractRef impls equal the & ones modulo mut (bounds included), generics search positions, enumerate indices, resolved forward flag. Also: TPL-UFCS, REF-KINDS, generics helpers.",
             "note": "Addresses / iteration contents not decided.", "technique": T_TPL + "; sibling/level consistency between facade impls and generated call"},
-    "C15": {"text": "Static name-resolution analysis of all 247 templates: no path root, macro name or trait-method call resolves through the caller's scope; every derive_more:: path (incl. constant-evaluated interpolated trait names) is exported under the features that compile the emitter. Plus: every `derive_more::..::<Y>::<z>(` call in a template is a trait path, a variant, an inherent function (looked up in the facade / rust-src) or a free function (TPL-ASSOC).",
+    "C15": {"text": "Static name-resolution analysis of all 247 templates: no path root, macro name or trait-method call resolves through the caller's scope; every derive_more:: path (incl. constant-evaluated interpolated trait names) is exported under the features that compile the emitter. Plus: every `derive_more::..::<Y>::<z>(` call in a template is a trait path, a variant, an inherent function (looked up in the facade / rust-src) or a free function (TPL-ASSOC). Also: TPL-UFCS (interpolated method names and type-qualified calls).",
             "note": "Tokens from the user's item are the user's own.", "technique": "static analysis: who-may-be-named lint over template token trees + cfg implication for exports"},
-    "C16": {"text": "Scanner alternatives compared row by row with Rust's comma-in-expression contexts, catch-all last, ident-only rule, alias test vs `==`/spacing, loop progress and failure at end of input, verbatim re-emission. Plus: alias lookup agreement, implicit-counter discipline, no trailing separator re-emitted.",
+    "C16": {"text": "Scanner alternatives compared row by row with Rust's comma-in-expression contexts, catch-all last, ident-only rule, alias test vs `==`/spacing, loop progress and failure at end of input, verbatim re-emission. Plus: alias lookup agreement, implicit-counter discipline, no trailing separator re-emitted. Also: the leaf scanners consume exactly one token tree.",
             "note": "Two known findings (cast-type generics, binary `|`). Agreement on all expressions is undecidable; the table is the claim.", "technique": "static analysis: table comparison between a hand-written scanner's alternatives and the language grammar's rows"},
-    "C17": {"text": "Untyped parser: duplicate check precedes every return, rejecting arms, allow-lists, slots written once; typed attributes: merge overrides enumerated (reject / concatenate / symmetric), synonyms, legacy detection on every path, positional-conflict diagnostics present and returned. Plus: REJECT-LEDGER over all 82 diagnostic sites (condition chains, raised check), OPT-ALG for singular attribute fields and legacy flags, accumulators and accumulating loops.",
+    "C17": {"text": "Untyped parser: duplicate check precedes every return, rejecting arms, allow-lists, slots written once; typed attributes: merge overrides enumerated (reject / concatenate / symmetric), synonyms, legacy detection on every path, positional-conflict diagnostics present and returned. Plus: REJECT-LEDGER over all 82 diagnostic sites (condition chains, raised check), OPT-ALG for singular attribute fields and legacy flags, accumulators and accumulating loops. Also: polarity table `name` -> on / `not(name)` -> off for every legacy parameter; the repr parser.",
             "note": "Token-equality of expansions for synonymous spellings not proved.", "technique": T_DEC + " (error-discipline / must-precede rules)"},
-    "C18": {"text": "PANIC-LEDGER: every panic-capable MIR site of the crate is diagnostic / input-guaranteed / guarded (guard re-recognised each run) / audited; closed sets re-derived; recursive SCCs need a termination argument; parser and scanner loops progress; leaf slicing shapes; traversal wildcards unreachable; index spaces. Recursion is now checked for structural descent at every recursive call instead of a name table.",
-            "note": "A new unproved site is reported even if safe (sound-analysis style residual false-alarm risk, stated). Dependencies' panics out of scope.", "technique": "static analysis: panic-site enumeration on type-checked MIR + guard recognition (dominating conditions) + call-graph SCC termination audit"},
+    "C18": {"text": "PANIC-LEDGER: every panic-capable MIR site of the crate is diagnostic / input-guaranteed / guarded (guard re-recognised each run) / audited; closed sets re-derived; recursive SCCs need a termination argument; parser and scanner loops progress; leaf slicing shapes; traversal wildcards unreachable; index spaces. Recursion is now checked for structural descent at every recursive call instead of a name table. Also EXT-PRE: preconditions of the dependencies' functions (syn, proc-macro2, quote, convert_case) read from their sources; every call into one is guarded / structurally recognised / audited (found and fixed the `#[into(i32 i64)]` panic). Budgets per file and kind.",
+            "note": "A new unproved site is reported even if safe (sound-analysis style residual false-alarm risk, stated). Dependencies' panics: direct preconditions only (EXT-PRE); panics deeper inside a dependency are out of scope.", "technique": "static analysis: panic-site enumeration on type-checked MIR + guard recognition (dominating conditions) + call-graph SCC termination audit"},
     "C19": {"text": "Decided on rustc's MIR with every feature on: every HashMap/HashSet instantiation uses the fixed-state hasher, no resolved call reaches an ambient-state API, no pointer->integer cast, no static/thread_local/lazy state survives an expansion.",
             "note": "Purity of dependencies and of DefaultHasher::default() assumed.", "technique": "static analysis: effect/ambient-authority analysis over type-checked MIR (rustc_private driver), hashed-collection instantiation audit", "engine": "dmmir"},
     "C20": {"text": "cfg algebra: gate of emitting/using code implies gate of the definition/export over all feature assignments (exhaustive truth tables), manifests wired consistently; rustc type-check of both crates for each single feature x {std,no-std} (quick) and all pairs + --tests (thorough). Plus two static pre-checks that need no build: CFG-DEFUSE (456 uses of cfg-gated names) and SYN-FEAT (rustc-resolved calls needing syn/extra-traits, syn/visit or an optional dependency lie under features that enable it).",
